@@ -11,7 +11,9 @@ from sim.world import World
 from sim import net
 
 ID = 'C17'
-RULE = ('seeded sequences of 1-3 replies (codes 200-599; texts with Unicode, '
+RULE = ('seeded sequences of 1-3 replies (codes 200-599; in 35% of them a '
+        'reply object with a history - code or text reassigned, enhanced '
+        'status set, another reply copied in; texts with Unicode, '
         'embedded CR/LF, ESC-looking prefixes, empty inner lines, inner lines '
         'starting with white space or "-") written by IO.send_reply and parsed '
         'by Reply.recv under 3-4 seeded segmenters/latency classes/read caps; '
@@ -29,7 +31,7 @@ PROBES = ['multi-line', 'esc-prefix', 'esc-class-mismatch', 'unicode',
           'embedded-cr', 'pipelined-successor', 'malformed-mixed-codes',
           'malformed-non-numeric', 'malformed-out-of-range',
           'malformed-invalid-utf8', 'malformed-no-separator', 'truncated',
-          'code-1xx-3xx']
+          'code-1xx-3xx', 'reply-with-history']
 STATES_MEASURE = 'distinct (reply shape flags, segmenter) pairs'
 STEP_CAP = 200000
 WORDS = ['Ok', 'Hello there', 'café 世界', '2.1.0 Sender ok',
@@ -70,7 +72,29 @@ def generate(seed, tier='quick'):
         for _ in range(rng.randint(1, 3)):
             code = str(rng.choice([rng.randint(200, 599), 250, 354, 220, 421,
                                    550, 451, 334]))
-            reps.append([code, gen_text(rng)])
+            rep = [code, gen_text(rng)]
+            if rng.random() < 0.35:
+                # the reply object has a history before it is written: a
+                # handler changes the code of a pre-built reply, replaces
+                # the text, copies another reply, sets the enhanced status
+                steps = []
+                for _ in range(rng.randint(1, 2)):
+                    c = rng.random()
+                    if c < 0.45:
+                        steps.append(['code', str(rng.choice([250, 451, 550,
+                                                              421, 354, 221,
+                                                              rng.randint(200, 599)]))])
+                    elif c < 0.7:
+                        steps.append(['message', gen_text(rng)])
+                    elif c < 0.85:
+                        steps.append(['esc', '%d.%d.%d' % (rng.choice([2, 4, 5]),
+                                                           rng.randint(0, 9),
+                                                           rng.randint(0, 20))])
+                    else:
+                        steps.append(['copy', str(rng.choice([250, 450, 550])),
+                                      gen_text(rng)])
+                rep.append(steps)
+            reps.append(rep)
         scn['replies'] = reps
     else:
         scn['kind'] = 'malformed'
@@ -120,8 +144,19 @@ def execute(scn, debug=False):
             if scn['kind'] == 'roundtrip':
                 sent = []
                 io_w = IO(a, ('w', 0))
-                for code, text in scn['replies']:
+                for rep in scn['replies']:
+                    code, text = rep[0], rep[1]
                     r = Reply(code, text)
+                    for st in (rep[2] if len(rep) > 2 else ()):
+                        world.probe('reply-with-history')
+                        if st[0] == 'code':
+                            r.code = st[1]
+                        elif st[0] == 'message':
+                            r.message = st[1]
+                        elif st[0] == 'esc':
+                            r.enhanced_status_code = st[1]
+                        elif st[0] == 'copy':
+                            r.copy(Reply(st[1], st[2]))
                     sent.append((r.code, r.message, r.enhanced_status_code))
                     r.send(io_w)
                 io_w.flush_send()
@@ -181,8 +216,9 @@ def execute(scn, debug=False):
                             'clause': 'C17/consumption', 'detail': {},
                             'msg': 'bytes left after the last reply: %r'
                                    % rest[:40]})
-                flags = (any('\n' in t for c, t in scn['replies']),
-                         len(scn['replies']))
+                flags = (any('\n' in rp[1] for rp in scn['replies']),
+                         len(scn['replies']),
+                         any(len(rp) > 2 for rp in scn['replies']))
             else:
                 wire = bytes.fromhex(scn['wire'])
                 then = scn['then'].encode()
@@ -241,7 +277,8 @@ def execute(scn, debug=False):
                         break
                 flags = (scn['shape'],)
         if scn['kind'] == 'roundtrip':
-            for code, text in scn['replies']:
+            for rp in scn['replies']:
+                code, text = rp[0], rp[1]
                 if '\n' in text:
                     world.probe('multi-line')
                 if any(ord(c) > 127 for c in text):
@@ -257,7 +294,7 @@ def execute(scn, debug=False):
             if len(scn['replies']) > 1:
                 world.probe('pipelined-successor')
         nontrivial = scn['kind'] == 'malformed' or any(
-            '\n' in t or (t[:1].isdigit()) for c, t in scn['replies'])
+            '\n' in rp[1] or (rp[1][:1].isdigit()) for rp in scn['replies'])
         return {
             'violations': violations, 'digest': world.digest(),
             'nontrivial': nontrivial, 'probes': dict(world.probes),
@@ -298,3 +335,11 @@ def shrink_candidates(scn, clause):
         c = dict(scn)
         c['then'] = ''
         yield c
+    for i, rp in enumerate(reps):
+        if len(rp) > 2:
+            for j in range(len(rp[2])):
+                c = dict(scn)
+                c['replies'] = [list(x) for x in reps]
+                st = rp[2][:j] + rp[2][j + 1:]
+                c['replies'][i] = rp[:2] + ([st] if st else [])
+                yield c
